@@ -278,7 +278,7 @@ def check_extended_system(rec, name, lane, pos, numbers, cell, pbc, cutoff, es, 
     # completeness
     h = omic.heights(ccell, [i not in zero for i in range(3)])
     K = [int(np.ceil(cutoff / h[i])) + 1 if (pbc[i] and i not in zero) else 0 for i in range(3)]
-    if (2 * K[0] + 1) * (2 * K[1] + 1) * (2 * K[2] + 1) * n > 400000:
+    if (2 * K[0] + 1) * (2 * K[1] + 1) * (2 * K[2] + 1) * n > 120000:
         rec.ood(name); return
     offs = np.array(list(itertools.product(*[range(-k, k + 1) for k in K])), float)
     imgs = (pos[:, None, :] + (offs @ cell0)[None, :, :]).reshape(-1, 3)
